@@ -71,7 +71,11 @@ func genBytes(rng *rand.Rand, maxLen int) []byte {
 		case 8:
 			b = append(b, 0xE2, 0x82) // truncated rune
 		case 9:
-			b = append(b, byte(0x80+rng.Intn(0x80)))
+			if rng.Intn(3) == 0 {
+				b = append(b, 0x80) // the first non-ASCII byte value (utf8.RuneSelf)
+			} else {
+				b = append(b, byte(0x80+rng.Intn(0x80)))
+			}
 		case 10:
 			b = append(b, '_')
 		case 11:
@@ -99,7 +103,7 @@ func c09Gen(rng *rand.Rand, tier string, i int) *Sexp {
 	}
 	norm := bytes.ReplaceAll(content, []byte("\r\n"), []byte("\n"))
 	ops := LA("ops")
-	runes := []rune{'a', 'b', '\n', ' ', 'é', '€', '😀', utf8.RuneError, '_'}
+	runes := []rune{'a', 'b', '\n', ' ', 'é', '€', '😀', utf8.RuneError, '_', 0x80, 0x7f}
 	strs := []string{"a", "ab", "b", "aba", "é", "a\n", " ", "_a"}
 	words := []string{"a", "ab", "b", "aba", "a_", "ba"}
 	modes := []string{"none", "spaces", "nl", "force"}
